@@ -313,6 +313,9 @@ pub fn run(ctx: &mut Ctx, replay: Option<&str>) {
             ("array-24", json!({"iss": "https://issuer.example", "exp": now + 100000, "readings": mixed(24)})),
             ("array-40-in-object-in-array", json!({"iss": "https://issuer.example", "exp": now + 100000, "l": [{"readings": mixed(40)}, mixed(30)]})),
             ("array-300-object-300", json!({"iss": "https://issuer.example", "exp": now + 100000, "iat": now, "readings": mixed(300), "o": {"p": big(300, "b")}})),
+            // large values: disclosure texts of a few hundred bytes to a few hundred KiB, every length class mod 3
+            ("large-values", json!({"iss": "https://issuer.example", "exp": now + 100000, "s1": "a".repeat(700), "s2": "b".repeat(6100), "s3": "c".repeat(6200), "s4": "d".repeat(6201), "s5": "e".repeat(6202),
+                                     "o": {"t1": "f".repeat(16384), "t2": "g".repeat(65537), "t3": ["h".repeat(200_001), {"u": "i".repeat(33_000)}]}})),
         ];
         for (k, (label, claims)) in sets.iter().enumerate() {
             for (si, st) in [Strategy::All, Strategy::Top].into_iter().enumerate() {
@@ -340,6 +343,51 @@ pub fn run(ctx: &mut Ctx, replay: Option<&str>) {
                 let mut problems: Vec<String> = vec![];
                 if !clear.is_empty() {
                     problems.push(format!("{} top-level claims stay in clear", clear.len()));
+                }
+                // every disclosure is base64url text without padding, decodes to [salt, name?, value], and its digest is listed
+                // exactly once (in the payload or inside another disclosure)
+                {
+                    let mut listed: std::collections::HashMap<String, usize> = std::collections::HashMap::new();
+                    fn digs(v: &Value, out: &mut std::collections::HashMap<String, usize>) {
+                        match v {
+                            Value::Object(m) => {
+                                for (k, x) in m {
+                                    if k == "_sd" {
+                                        for d in x.as_array().into_iter().flatten().filter_map(Value::as_str) {
+                                            *out.entry(d.to_string()).or_insert(0) += 1;
+                                        }
+                                    } else if k == "..." && m.len() == 1 {
+                                        if let Some(d) = x.as_str() {
+                                            *out.entry(d.to_string()).or_insert(0) += 1;
+                                        }
+                                    } else {
+                                        digs(x, out);
+                                    }
+                                }
+                            }
+                            Value::Array(a) => a.iter().for_each(|x| digs(x, out)),
+                            _ => {}
+                        }
+                    }
+                    digs(&payload, &mut listed);
+                    for d in &decoded {
+                        if let Some(v) = d.as_array().and_then(|x| x.last()) {
+                            digs(v, &mut listed);
+                        }
+                    }
+                    if decoded.len() != parts.disclosures.len() {
+                        problems.push(format!("{} of {} disclosures do not decode as base64url(JSON array)", parts.disclosures.len() - decoded.len(), parts.disclosures.len()));
+                    }
+                    for d in &parts.disclosures {
+                        if !d.bytes().all(|b| b.is_ascii_alphanumeric() || b == b'-' || b == b'_') {
+                            problems.push("a disclosure is not unpadded base64url text".to_string());
+                            break;
+                        }
+                        if listed.get(&hash(d)) != Some(&1) {
+                            problems.push(format!("the digest of a disclosure is listed {} times", listed.get(&hash(d)).copied().unwrap_or(0)));
+                            break;
+                        }
+                    }
                 }
                 if si == 0 {
                     let mut ps = vec![];
